@@ -395,6 +395,7 @@ func c07Verbatim(before, after string) string {
 }
 
 func runC07(c *Ctx) {
+	defer c.c07Shared()
 	c.R.Rule = "formulas from a grammar (cell, range, whole-row, whole-column references, every $ combination, references to other sheets incl. quoted names with spaces and quotes, operators, IF/SUM/MAX/MIN/COUNT/LEN calls, string literals that look like references) stored on one of two sheets; one structural edit (insert 1..3 / remove; rows or columns; position 1..9) on one of four sheets; GetCellFormula vs (real efp tokens + extracted operand model); CalcCellValue before vs after when no endpoint lay on a deleted line; non-reference tokens, sheet names and $ markers verbatim. non-trivial = formula has at least one reference"
 	n := 3150
 	if c.Thorough() {
